@@ -20,6 +20,7 @@ RULE = (
     "body, loop wrapped as a graph node inside a DAG; entry at EVERY entry point the graph lists; max_iterations swept over 1..S+1 where S is the "
     "number of steps of the unbounded run; both runners, async under delays/ties/hold-open. Oracle: the equivalent sequential while/do-while "
     "program. Non-trivial = the loop ran >=2 iterations or max_iterations cut it short; distinct = digest of (template parameters, entry, schedule)."
+    ' Gate kinds now include multi-target route gates; the late-signal template (signal emitted by a separate node one step after the state change) is included.'
 )
 ASSUMPTIONS = [
     "excluded configuration: a closed-by-default gate that waits on a signal only its own targets can emit (nothing can start; DESIGN C04)",
